@@ -256,7 +256,8 @@ void prop_c10(hz::Ctx &ctx) {
   }
   // ---- (6) a byte outside printable ASCII (0x7f..0xff) at every position of an instruction text ----
   {
-    std::vector<std::string> lines = {"mov rax, rbx", "add dword [rcx+8], 0x10", "vpaddq ymm1, ymm2, ymm3", "ret", "jmp short 5", "lea r15, [rax+rsp]"};
+    // instruction lines, and the lines that emit nothing (label, section, global): the byte is outside a comment in all of them
+    std::vector<std::string> lines = {"mov rax, rbx", "add dword [rcx+8], 0x10", "vpaddq ymm1, ymm2, ymm3", "ret", "jmp short 5", "lea r15, [rax+rsp]", "start:", "loop_1: ", "  my_label:  ", "section .text", "global _start", "SECTION .data"};
     for (auto &l : lines) for (size_t pos = 0; pos <= l.size(); pos++) {
       // exhaustive over 0x7f..0xff in thorough, a seeded subset in quick (always incl. 0x7f, 0x80, 0xff)
       std::vector<int> bytes{0x7f, 0x80, 0xff};
